@@ -1290,3 +1290,33 @@ Proof.
     simpl in Hc. apply Bool.andb_true_iff in Hc. destruct Hc as [Hu Hacc]. apply beq_eq in Hu.
     rewrite (Hno r Hin Hp (eq_sym Hu)) in Hacc. discriminate.
 Qed.
+
+(* ---- histories of browse requests: every answer of every history leaves the internal locations
+   and everything below them out, whatever trees were on disk before ---- *)
+Lemma archive_members_chain : forall hide d kids e,
+  In e (map fst (archive hide d kids)) -> exists c, In (e, c) (archive hide d kids).
+Proof.
+  intros hide d kids e Hin. apply in_map_iff in Hin. destruct Hin as ([e' c] & He & Hin).
+  simpl in He. subst e'. exists c. exact Hin.
+Qed.
+
+Lemma history_internal_not_named : forall s ps h qs q ans p,
+  hs_internal s = Some ps -> browse_hide s = Some h -> In p ps ->
+  In (q, ans) (browse_history h qs) ->
+  ans = browse_answer h q /\ ~ In (resolved p) ans /\
+  (bq_arc q = true -> forall e c, In (e, c) (archive h (bq_dir q) (bq_kids q)) -> In e ans /\ ~ In (resolved p) c).
+Proof.
+  intros s ps h qs q ans p Hi Hb Hp Hin.
+  unfold browse_history in Hin. apply in_map_iff in Hin. destruct Hin as (q' & E & _).
+  injection E as -> <-.
+  destruct (internal_location_not_listed s ps h (bq_dir q) (bq_kids q) p Hi Hb Hp) as [HL HA].
+  split; [reflexivity|]. split.
+  - unfold browse_answer. destruct (bq_arc q).
+    + intro Hin. apply archive_members_chain in Hin. destruct Hin as (c & Hin).
+      pose proof (archive_not_hidden _ _ _ _ _ Hin) as [Hec _]. apply (HA _ _ Hin).
+      pose proof (HA _ _ Hin) as Hn. exact Hec.
+    + exact HL.
+  - intros Harc e c Hin. split.
+    + unfold browse_answer. rewrite Harc. apply in_map_iff. exists (e, c). split; [reflexivity|exact Hin].
+    + exact (HA _ _ Hin).
+Qed.
